@@ -4,8 +4,10 @@ cd "$(dirname "$0")/.."
 ids=${1:-"C01 C02 C03 C04 C05 C06 C07 C08 C09 C10 C11 C12 C13 C14 C15 C16 C17 C18 C19 C20"}
 seeds=${2:-"1 2 3"}
 tier=${3:-quick}
+bad=0
 for s in $seeds; do for p in $ids; do
   out=$(VERIF_SEED=$s timeout 7200 ./check $p --tier $tier 2>&1); rc=$?
   echo "seed=$s $p rc=$rc $(echo "$out" | tail -1)"
-  [ $rc != 0 ] && echo "$out" | grep -A2 "VIOLATION\|MACHINERY" | head -12
+  if [ $rc != 0 ]; then bad=1; echo "$out" | grep -A2 "VIOLATION\|MACHINERY" | head -12; fi
 done; done
+exit $bad
